@@ -328,13 +328,15 @@ impl PartialEq for NegotiationError {
             (Self::SnowError(lhs), Self::SnowError(rhs)) => lhs == rhs,
             (Self::ParseError(lhs), Self::ParseError(rhs)) => lhs == rhs,
             (Self::IoError(lhs), Self::IoError(rhs)) => lhs == rhs,
-            (Self::PeerIdMismatch(lhs, lhs_1), Self::PeerIdMismatch(rhs, rhs_1)) =>
-                lhs == rhs && lhs_1 == rhs_1,
+            (Self::PeerIdMismatch(lhs, lhs_1), Self::PeerIdMismatch(rhs, rhs_1)) => {
+                lhs == rhs && lhs_1 == rhs_1
+            }
             #[cfg(feature = "quic")]
             (Self::Quic(lhs), Self::Quic(rhs)) => lhs == rhs,
             #[cfg(feature = "websocket")]
-            (Self::WebSocket(lhs), Self::WebSocket(rhs)) =>
-                core::mem::discriminant(lhs) == core::mem::discriminant(rhs),
+            (Self::WebSocket(lhs), Self::WebSocket(rhs)) => {
+                core::mem::discriminant(lhs) == core::mem::discriminant(rhs)
+            }
             _ => core::mem::discriminant(self) == core::mem::discriminant(other),
         }
     }
